@@ -59,24 +59,24 @@ set_option maxRecDepth 100000 in
 theorem grammar_skipOK : ((List.range DS.Gen.Grammar.rules.size).all fun i =>
     skipOK DS.Gen.Actions.acts DS.Gen.Grammar.rules.size (DS.Gen.Grammar.rules[i]!)) = true := by decide +kernel
 
-theorem lookahead_contributes_nothing (input : Array Nat) (maxCnt fuel : Nat) (e : PExpr) (s : PState)
+theorem lookahead_contributes_nothing (input : Array Nat) (maxCnt : Nat) (custom : Nat → Nat) (fuel : Nat) (e : PExpr) (s : PState)
     (he : skipOK DS.Gen.Actions.acts DS.Gen.Grammar.rules.size e = true) (hs : s.skip > 0) :
-    Same s (parseExpr (envOf input maxCnt) fuel e s).1 := by
-  have hr : ∀ i, i < (envOf input maxCnt).rules.size →
-      skipOK (envOf input maxCnt).acts (envOf input maxCnt).rules.size ((envOf input maxCnt).rules[i]!) = true := by
+    Same s (parseExpr (envOf input maxCnt custom) fuel e s).1 := by
+  have hr : ∀ i, i < (envOf input maxCnt custom).rules.size →
+      skipOK (envOf input maxCnt custom).acts (envOf input maxCnt custom).rules.size ((envOf input maxCnt custom).rules[i]!) = true := by
     intro i hi
     have := grammar_skipOK
     simp only [List.all_eq_true, List.mem_range] at this
     exact this i hi
-  exact (skip_pure (envOf input maxCnt) hr fuel).1 e he s hs
+  exact (skip_pure (envOf input maxCnt custom) hr fuel).1 e he s hs
 
 /-- in particular an `&e` / `!e` node evaluated in ordinary mode leaves ParserData as it was -/
-theorem and_predicate_pure (input : Array Nat) (maxCnt fuel : Nat) (i : Nat) (e : PExpr) (s : PState)
+theorem and_predicate_pure (input : Array Nat) (maxCnt : Nat) (custom : Nat → Nat) (fuel : Nat) (i : Nat) (e : PExpr) (s : PState)
     (he : skipOK DS.Gen.Actions.acts DS.Gen.Grammar.rules.size e = true) :
-    (parseNode (envOf input maxCnt) (fuel + 1) (.and_ i e) s).1.trace = s.trace ∧
-    (parseNode (envOf input maxCnt) (fuel + 1) (.and_ i e) s).1.cfg = s.cfg := by
+    (parseNode (envOf input maxCnt custom) (fuel + 1) (.and_ i e) s).1.trace = s.trace ∧
+    (parseNode (envOf input maxCnt custom) (fuel + 1) (.and_ i e) s).1.cfg = s.cfg := by
   simp only [parseNode]
-  have := lookahead_contributes_nothing input maxCnt fuel e { s with skip := s.skip + 1 } he (by simp only; omega)
+  have := lookahead_contributes_nothing input maxCnt custom fuel e { s with skip := s.skip + 1 } he (by simp only; omega)
   exact ⟨this.trace, this.cfg⟩
 
 end DS.Props.C03
